@@ -34,6 +34,9 @@ type c20Server struct {
 
 // v1 is longer than v2 (an in-place overwrite without truncation leaves a tail)
 func c20Content(v string) string {
+	if strings.HasPrefix(v, "raw:") {
+		return strings.TrimPrefix(v, "raw:")
+	}
 	if v == "v1" {
 		return "version: '3'\ntasks:\n  show:\n    cmds:\n      - echo REMOTE-v1\n      - echo EXTRA-v1\n  other:\n    cmds:\n      - echo OTHER-v1\n"
 	}
@@ -115,6 +118,30 @@ func (s *c20Server) serve(ln net.Listener) {
 			w.Header().Set("Content-Type", "text/yaml")
 		default:
 			w.Write([]byte("version: '3'\nincludes:\n  b: http://" + s.addr + "/inc.yml\ntasks:\n  showa:\n    cmds:\n      - echo OUTER\n"))
+		}
+	})
+	// /proj/ is a directory-style URL: the client has to probe the default Taskfile names below it.
+	// The directory itself always answers (404); in mode "silent" the probe of /proj/Taskfile.yml
+	// hangs until the client gives up.
+	mux.HandleFunc("/proj/", func(w http.ResponseWriter, r *http.Request) {
+		s.mu.Lock()
+		mode, content := s.mode, s.content
+		s.reqs++
+		s.mu.Unlock()
+		if r.URL.Path != "/proj/Taskfile.yml" {
+			http.NotFound(w, r)
+			return
+		}
+		if mode == "silent" {
+			select {
+			case <-r.Context().Done():
+			case <-time.After(20 * time.Second):
+			}
+			return
+		}
+		w.Header().Set("Content-Type", "text/yaml")
+		if r.Method != http.MethodHead {
+			w.Write([]byte(c20Content(content)))
 		}
 	})
 	s.srv = &http.Server{Handler: mux}
@@ -742,6 +769,123 @@ func c20SlowAndChangedUnit() *Unit {
 	}}
 }
 
+// Approved content A, then the server hands out content B that differs from A only in bytes a
+// "normalising" comparison might drop (carriage returns, trailing blanks, a byte-order mark, the
+// final newline, letter case): B is different content, it is not approved, a run that cannot
+// approve it ends with 104 and runs nothing of B.
+func c20NearIdenticalContentUnit() *Unit {
+	name := "content-changed-only-in-bytes-a-normaliser-would-drop"
+	return &Unit{Name: name, Weight: 2, Custom: func(u *Unit, dir string, deadline time.Time) *vlab.UnitResult {
+		res := &vlab.UnitResult{SigCounts: map[string]int{}, Extra: map[string]any{}}
+		srv := &c20Server{content: "v1", mode: "up"}
+		if err := srv.start(); err != nil {
+			res.HarnessErr = err.Error()
+			return res
+		}
+		defer srv.set("v1", "refusing")
+		n := 0
+		var samples []any
+		env := []string{"TASK_X_REMOTE_TASKFILES=1"}
+		a := "version: '3'\ntasks:\n  show:\n    cmds:\n      - echo REMOTE-A #      - echo SNEAKED-IN\n"
+		for _, c := range []struct{ label, b string }{
+			{"carriage-return-makes-a-comment-tail-a-command", strings.Replace(a, "#      -", "#\r      -", 1)},
+			{"crlf-line-ends", strings.ReplaceAll(a, "\n", "\r\n")},
+			{"trailing-blank", strings.Replace(a, "REMOTE-A #", "REMOTE-A  #", 1)},
+			{"no-final-newline", strings.TrimSuffix(a, "\n")},
+			{"byte-order-mark", "\ufeff" + a},
+			{"letter-case", strings.Replace(a, "REMOTE-A", "REMOTE-a", 1)},
+			{"tab-in-comment", strings.Replace(a, "#      -", "#\t      -", 1)},
+		} {
+			rootTF := "version: '3'\nincludes:\n  inc: http://" + srv.addr + "/inc.yml\ntasks:\n  local:\n    cmds: ['true']\n"
+			os.RemoveAll(dir)
+			os.MkdirAll(dir, 0o755)
+			os.WriteFile(filepath.Join(dir, "Taskfile.yml"), []byte(rootTF), 0o644)
+			srv.set("raw:"+a, "up")
+			so0, se0, rc0 := RunCLI(dir, env, "", "--timeout", "20s", "--insecure", "--yes", "inc:show")
+			n++
+			hist := []string{"run-yes inc:show (content A downloaded and approved)", "server content B = A changed by " + c.label, "run inc:show (nobody to approve)"}
+			add := func(v vlab.Violation) {
+				v.Scenario = name
+				v.Input = map[string]any{"history": hist, "content_a": a, "content_b": c.b}
+				v.Trace = hist
+				res.SigCounts[v.Sig]++
+				if res.SigCounts[v.Sig] == 1 {
+					res.Violations = append(res.Violations, v)
+				}
+			}
+			if rc0 != 0 || !strings.Contains(so0, "REMOTE-A") {
+				add(vlab.V("C20", "approved_content_did_not_run", "near_identical:first_download", fmt.Sprintf("status %d stdout %q stderr %q", rc0, so0, firstN(se0, 160))))
+				continue
+			}
+			srv.set("raw:"+c.b, "up")
+			so, se, rc := RunCLI(dir, env, "", "--timeout", "20s", "--insecure", "inc:show")
+			n++
+			if len(samples) < 2 {
+				samples = append(samples, map[string]any{"change": c.label, "status": rc, "stdout": so, "stderr": firstN(se, 120)})
+			}
+			if strings.Contains(so, "REMOTE-") || strings.Contains(so, "SNEAKED") {
+				add(vlab.V("C20", "unapproved_content_ran", "near_identical:"+c.label, fmt.Sprintf("content that differs from the approved one (%s) was executed without approval: status %d stdout %q", c.label, rc, so)))
+			}
+			if rc != 104 {
+				add(vlab.V("C20", "declined_download_not_104", fmt.Sprintf("near_identical:%s:got%d", c.label, rc), fmt.Sprintf("the changed content is not approved; status %d (stderr %q), expected 104", rc, firstN(se, 200))))
+			}
+		}
+		res.Extra["samples"] = samples
+		res.Stats = vlab.Stats{Scenario: name, Execs: n, States: n, Transitions: n, Outcomes: 1, Exhaustive: true}
+		return res
+	}}
+}
+
+// A directory-style URL (the client probes the default Taskfile names below it): after the
+// content was downloaded and approved, the probe of the file stops answering while the directory
+// itself still answers: like any other download failure this falls back to the approved cached copy.
+func c20DirectoryURLUnit() *Unit {
+	name := "directory-url-whose-file-probe-stops-answering"
+	return &Unit{Name: name, Weight: 2, Custom: func(u *Unit, dir string, deadline time.Time) *vlab.UnitResult {
+		res := &vlab.UnitResult{SigCounts: map[string]int{}, Extra: map[string]any{}}
+		srv := &c20Server{content: "v1", mode: "up"}
+		if err := srv.start(); err != nil {
+			res.HarnessErr = err.Error()
+			return res
+		}
+		defer srv.set("v1", "refusing")
+		env := []string{"TASK_X_REMOTE_TASKFILES=1"}
+		rootTF := "version: '3'\nincludes:\n  inc: http://" + srv.addr + "/proj/\ntasks:\n  local:\n    cmds: ['true']\n"
+		os.RemoveAll(dir)
+		os.MkdirAll(dir, 0o755)
+		os.WriteFile(filepath.Join(dir, "Taskfile.yml"), []byte(rootTF), 0o644)
+		hist := []string{"run-yes inc:show (downloaded through the directory URL, approved)", "probe of /proj/Taskfile.yml stops answering", "run --timeout 2s inc:show"}
+		add := func(v vlab.Violation) {
+			v.Scenario = name
+			v.Input = map[string]any{"history": hist, "root_taskfile": rootTF}
+			v.Trace = hist
+			res.SigCounts[v.Sig]++
+			if res.SigCounts[v.Sig] == 1 {
+				res.Violations = append(res.Violations, v)
+			}
+		}
+		n := 0
+		so0, se0, rc0 := RunCLI(dir, env, "", "--timeout", "20s", "--insecure", "--yes", "inc:show")
+		n++
+		if rc0 != 0 || !strings.Contains(so0, "REMOTE-v1") {
+			add(vlab.V("C20", "approved_content_did_not_run", "directory_url:first_download", fmt.Sprintf("status %d stdout %q stderr %q", rc0, so0, firstN(se0, 160))))
+		} else {
+			for _, mode := range []string{"silent", "refusing"} {
+				srv.set("v1", mode)
+				so, se, rc := RunCLI(dir, env, "", "--timeout", "2s", "--insecure", "inc:show")
+				n++
+				if rc != 0 || !strings.Contains(so, "REMOTE-v1") {
+					add(vlab.V("C20", "no_cache_fallback", fmt.Sprintf("directory_url:%s:got%d", mode, rc), fmt.Sprintf("the approved cached copy was not used when the download failed (%s): status %d stdout %q stderr %q", mode, rc, so, firstN(se, 200))))
+				}
+				srv.set("v1", "up")
+			}
+		}
+		res.Extra["samples"] = []any{map[string]any{"first_status": rc0}}
+		res.Stats = vlab.Stats{Scenario: name, Execs: n, States: n, Transitions: n, Outcomes: 1, Exhaustive: true}
+		return res
+	}}
+}
+
 func c20Units(tier string) []*Unit {
-	return []*Unit{c20SlowAndChangedUnit(), c20Unit(tier, false), c20Unit(tier, true), c20TwoURLsUnit(), c20NestedUnit(), c20SchemeUnit()}
+	return []*Unit{c20SlowAndChangedUnit(), c20NearIdenticalContentUnit(), c20DirectoryURLUnit(), c20Unit(tier, false), c20Unit(tier, true), c20TwoURLsUnit(), c20NestedUnit(), c20SchemeUnit()}
 }
